@@ -53,7 +53,7 @@ func runRelayer(c RelCase, id string) Outcome {
 			}
 			// attribute the disagreement to the property it belongs to
 			votedKind := r.voted
-			if (id == "C02" && votedKind) || (id == "C16" && !votedKind) || (id == "C01" && votedKind && r.kind == "vote") || (r.kind == "accept" && id != "C01") {
+			if (id == "C02" && votedKind) || (id == "C16" && !votedKind) || (id == "C01" && votedKind && r.kind == "vote") || (id == "C01" && r.kind == "newvoter" && !want) || (r.kind == "accept" && id != "C01") {
 				sig := "valid-message-rejected/" + r.kind
 				if !want {
 					sig = "accepted/" + r.reason
